@@ -301,7 +301,7 @@ func TestC02_Reject(t *testing.T) {
 			return
 		}
 		priv := sm2x.Priv(c.key)
-		kind := rapid.SampledFrom([]string{"truncate", "truncate_short", "subst", "subst", "extend", "wrong_key", "mode_confusion", "offcurve_order2", "offcurve_consistent", "offcurve_consistent", "prefix"}).Draw(t, "kind")
+		kind := rapid.SampledFrom([]string{"truncate", "truncate_short", "subst", "subst", "extend", "wrong_key", "mode_confusion", "offcurve_order2", "offcurve_consistent", "offcurve_consistent", "offcurve_zero", "prefix"}).Draw(t, "kind")
 		mut := append([]byte{}, raw...)
 		cls := kind
 		dpriv := priv
@@ -365,6 +365,11 @@ func TestC02_Reject(t *testing.T) {
 				s = q
 			}
 			mut = forge(s, x0, new(big.Int), c.pt, c.mode)
+		case "offcurve_zero":
+			// C1 = (0,0): the affine stand-in for infinity and the order-2 point of the b'=0 curve;
+			// every scalar multiple is (0,0) again, so anyone can build consistent C2/C3 without a key
+			mut = forge(rsm2.Infinity(), new(big.Int), new(big.Int), c.pt, c.mode)
+			cls = "offcurve_order2"
 		case "offcurve_consistent":
 			x := gen.BigBelow(cv.P).Draw(t, "x")
 			y := gen.BigBelow(cv.P).Draw(t, "y")
